@@ -212,6 +212,22 @@ def check_nearest(r) -> list[Fail]:
     import molli as ml
     from molli.descriptor.gridbased import nearest_atom_index, prune
 
+    if r.get("huge"):
+        # a structure with tens of thousands of atoms (a solvated system, a nanoparticle): atom numbers beyond 32767
+        rng_ = np.random.default_rng(r["seed"])
+        nat = [33000, 40000, 66000][r["huge"] % 3]
+        big = ml.CartesianGeometry(["C"] * nat, coords=rng_.uniform(-40, 40, size=(nat, 3)))
+        pts = rng_.uniform(-40, 40, size=(60, 3)).astype(np.float32)
+        idx_ = np.asarray(nearest_atom_index(pts, big, max_dist=r["cut"] + 3.0))
+        d_ = np.linalg.norm(pts.astype(np.float64)[:, None, :] - np.asarray(big.coords, dtype=float)[None, :, :], axis=-1)
+        want_ = np.where(d_.min(axis=1) <= r["cut"] + 3.0, d_.argmin(axis=1), -1)
+        band_ = np.abs(d_.min(axis=1) - (r["cut"] + 3.0)) < 1e-4
+        srt_ = np.sort(d_, axis=1)
+        tie_ = (srt_[:, 1] - srt_[:, 0]) < 1e-5
+        bad_ = [p_ for p_ in range(len(pts)) if not band_[p_] and not tie_[p_] and int(idx_[p_]) != int(want_[p_])]
+        if bad_:
+            return [Fail("nearest:huge-structure:wrong-atom", f"{nat} atoms: point {bad_[0]} got atom {int(idx_[bad_[0]])}, closest is {int(want_[bad_[0]])}; {len(bad_)} of {len(pts)} points wrong")]
+        return []
     ens = _ens(r)
     grid = _grid(r, ens)
     cut = r["cut"]
@@ -289,9 +305,17 @@ def classify_nearest(r):
 
 def check_fields(r) -> list[Fail]:
     from molli.descriptor.gridbased import aso, aeif
+    import molli as ml
 
     ens = _ens(r)
     grid = _grid(r, ens)
+    if r.get("isomer_first") and ens.n_atoms >= 2:
+        # history of the process: an ensemble with the SAME composition but its atoms listed in the opposite order was evaluated before
+        rev = list(range(ens.n_atoms))[::-1]
+        iso_ = ml.ConformerEnsemble([int(a.element) for a in ens.atoms][::-1], n_conformers=ens.n_conformers, coords=np.asarray(ens.coords)[:, rev, :],
+                                    weights=np.asarray(ens.weights), atomic_charges=np.asarray(ens.atomic_charges)[:, rev])
+        aso(iso_, grid[: min(5, len(grid))])
+        aeif(iso_, grid[: min(5, len(grid))])
     gk = r.get("grid_kind", 0)
     if gk == 1:
         grid = grid.astype(np.float64)                       # a double-precision grid (rectangular_grid(dtype="float64"), user-made arrays)
@@ -424,6 +448,7 @@ def strat_desc(tier):
         "seed": st.integers(0, 10**6), "n_atoms": st.one_of(st.integers(2, 12), st.integers(2, 40)), "n_conf": st.integers(1, 4), "spread": st.sampled_from([1.5, 3.0, 6.0]),
         "gpad": st.sampled_from([0.0, 1.0, 3.0]), "gspacing": st.sampled_from([1.0, 0.7, 1.5, 2.5, 4.0]), "cut": st.sampled_from([2.0, 1.0, 3.5, 0.5]), "eps": st.sampled_from([0.5, 0.0, 0.1, 1.0]),
         "weighted": st.booleans(), "grid_kind": st.sampled_from([0, 0, 1, 2]), "zero_w": st.sampled_from([0, 0, 1, 2, 5, 6]), "memfault": st.sampled_from([False, False, True]), "many_conf": st.sampled_from([0, 0, 0, 0, 70, 130, 257]),
+        "huge": st.sampled_from([0] * 24 + [1, 2, 3]), "isomer_first": st.booleans(),
     })
 
 
